@@ -203,7 +203,7 @@ Definition seg_term (sg : seg) : string := match sg with (_, ASearch _ _ _ t) =>
 (* canonical style: plain keys, [&a] except in first position, infix
    inversion, escaped term, first free delimiter *)
 Definition restyle (sepc : ascii) (first : bool) (y : xseg) : xseg :=
-  ((fst (fst y), mkstyle None (negb first) false (canon_delim (seg_term (fst (fst y))))), key_set sepc y).
+  ((fst (fst y), mkstyle None (negb first) false (canon_delim (seg_term (fst (fst y)))) false), key_set sepc y).
 
 Fixpoint restyle_list (sepc : ascii) (first : bool) (l : list xseg) : list xseg :=
   match l with
@@ -237,7 +237,10 @@ Proof. reflexivity. Qed.
 
 Lemma T_term_set st c :
   mem_ascii c (rev term_syms ++ term_set st)%list = mem_ascii c operand_specials.
-Proof. unfold term_set. destruct (st_quote st); all_ascii c; vm_compute; reflexivity. Qed.
+Proof.
+  unfold term_set, term_specials. destruct (st_quote st) as [[]|]; [destruct (st_nest st) | destruct (st_nest st) |];
+    all_ascii c; vm_compute; reflexivity.
+Qed.
 
 Lemma T_spell_method m : method_str m = op_text m.
 Proof. destruct m; reflexivity. Qed.
@@ -292,7 +295,7 @@ Proof.
   intros Hg. rewrite T_term_syms.
   rewrite ensure_escaped_esc; [| | apply T_term_nobs | exact Hg].
   - apply esc_with_ext. intros c. apply T_term_set.
-  - unfold term_set. destruct (st_quote st); reflexivity.
+  - unfold term_set, term_specials. destruct (st_quote st) as [[]|]; [destruct (st_nest st) | destruct (st_nest st) |]; reflexivity.
 Qed.
 
 (* ---- one segment ---- *)
@@ -319,7 +322,7 @@ Proof.
     rewrite key_canon by (try apply key_set_bs; assumption).
     destruct first; reflexivity.
   - (* search *)
-    cbn [wfc_seg] in Hc. apply andb_true_iff in Hc. destruct Hc as [_ Hg].
+    cbn [wfc_seg] in Hc. rename Hc into Hg.
     cbn [kseg stringify_seg attrs_str is_search_terms restyle fst snd needs_sep body_x body st_quote st_prefix st_delim andb seg_term kept].
     unfold search_str. rewrite T_spell_method, andb_false_r, andb_true_r.
     destruct m; try (rewrite term_canon by exact Hg; reflexivity).
@@ -379,8 +382,7 @@ Proof.
     cbn [wf_seg st_quote] in *. cbn [wfc_seg] in Hc. apply andb_true_iff in Hc. destruct Hc as [Hs _].
     apply andb_true_iff in Hwf. destruct Hwf as [H1 _]. rewrite H1, Hs. reflexivity.
   - (* search *)
-    cbn [wf_seg st_quote st_delim seg_term] in *. cbn [wfc_seg] in Hc.
-    apply andb_true_iff in Hc. destruct Hc as [Hq Hg].
+    cbn [wf_seg st_quote st_delim seg_term] in *. cbn [wfc_seg] in Hc. rename Hc into Hg.
     apply andb_true_iff in Hwf. destruct Hwf as [H1 _]. rewrite H1. cbn [andb].
     destruct m; try reflexivity.
     rewrite <- T_delims in Hg. destruct (pick_delim_some _ _ Hg) as (d & Ed).
